@@ -40,6 +40,12 @@ new list per write, split_url_events returns THE argument list, simplify_string 
 The model answers an exception of an in-place function with the heap it reached; the after-state of every input object
 is compared with it.
 
+Group C12 (filter_keyvals_regex; Model/FilterRegexHeap.v, call 18; theorems in Props/C12transforms.v - the function is
+the built-in q2_filter_keyvals_regex and not part of C16's statement): the C16 codec and oracle (`C12:input-modified`,
+`C12:sharing`: a new list holding exactly the caller's own Events whose value under the key is a str the pattern is found
+in, by identity and in order); the regex engine travels as a table: whether re.compile(regex) returned, and for every
+value label of the case what bool(r.findall(v)) gives on the real `re` (True / False / the exception class).
+
 usable as   python -m harness.theap2 quick | thorough            (evidence/THEAP2.json)
             python -m harness.theap2 replay '<case json>' | <file.json>
 and as      from harness import theap2;  ok = theap2.prepare(ck, "C16");  theap2.heap_check(ck, "C16", have_driver=ok)
@@ -61,8 +67,8 @@ from .theap import (ERRCODE, ERRNAME, EVENT_LIST, Built, R, Rec, Table, _model_r
 
 DRIVER = "THEAP_C16"
 MODEL_FILES = ["Model/MemHeap", "Model/TransformHeap", "Model/DictHeap", "Model/Group", "Model/GroupHeap",
-               "Model/ClassifyBase", "Model/Classify", "Model/ClassifyHeap"]
-MODEL_TARGETS = ["Model/GroupHeap.vo", "Model/ClassifyHeap.vo"]
+               "Model/ClassifyBase", "Model/Classify", "Model/ClassifyHeap", "Model/FilterRegexHeap"]
+MODEL_TARGETS = ["Model/GroupHeap.vo", "Model/ClassifyHeap.vo", "Model/FilterRegexHeap.vo"]
 SUBEVENTS = "subevents"
 
 RULE = ("per function a deterministic corpus (small layouts over a data alphabet with missing keys, list values incl. [] "
@@ -453,6 +459,37 @@ def gen_chunk(which, rng, n_random):
 
 # -- seeded random layouts
 
+# filter_keyvals_regex: patterns (two do not compile), strings, and a data alphabet with non-str values under the key
+RXPOOL = ["x", "^x$", "", "y|1", "x+y", ".", "(?i)X", "\\d", "[", "(x", "x$", "^$"]
+RXSTRINGS = ["x", "xy", "y", "", "X", "1", "axb", "yx"]
+RALPHA = [{}, {"a": "x"}, {"a": "xy", "b": "x"}, {"a": "y"}, {"a": ""}, {"b": "x"}, {"a": "X", "c": ["x"]},
+          {"a": 1}, {"a": ["x"]}, {"a": None}, {"a": {"z": "x"}}, {"b": "y", "a": "x"}]
+
+
+def gen_fregex(which, rng, n_random):
+    seqs = [()] + [p for n in (1, 2) for p in itertools.product(range(len(RALPHA)), repeat=n)]
+    k = 0
+    for idxs in seqs:
+        rows = [[j * S, (1 << j) * S, RALPHA[i]] for j, i in enumerate(idxs)]
+        for key in ("a", "b"):
+            # every pattern on the short layouts, a rotating one on the others; the aliasing configuration rotates
+            for rx in (RXPOOL if len(idxs) <= 1 else [RXPOOL[(k + 5) % len(RXPOOL)], RXPOOL[k % 3]]):
+                k += 1
+                yield mk_case(which, [rows], {"key": key, "regex": rx}, **UCONF[k % len(UCONF)])
+    tri = [(1, 2, 1), (1, 3, 11), (2, 1, 7), (1, 1, 8), (4, 1, 4), (6, 2, 6), (5, 11, 5), (1, 10, 1), (1, 9, 2)]
+    for idxs in tri:
+        rows = [[j * S, (1 << j) * S, RALPHA[i]] for j, i in enumerate(idxs)]
+        for key in ("a", "b", "c", "zz"):
+            for rx in RXPOOL:
+                k += 1
+                yield mk_case(which, [rows], {"key": key, "regex": rx}, **UCONF[k % len(UCONF)])
+    for rows in malformed_rows():
+        for rx in ("x", "["):
+            yield mk_case(which, [rows], {"key": "a", "regex": rx}, stream="malformed")
+    for _ in range(n_random):
+        yield rand_case(which, rng)
+
+
 VALPOOL = [1, 2, "x", "y", ["x"], ["x", "y"], [], "1", 1.0, True, 0, False, None, ["y", "x"], [1], [1.0], ""]
 KEYPOOL = ["a", "b", "c"]
 
@@ -520,6 +557,11 @@ def rand_case(which, rng):
     elif which == "filter_keyvals":
         vals = [copy.deepcopy(rng.choice(pool + VALPOOL[:3])) for _ in range(rng.choice([0, 1, 1, 2, 3]))]
         params = {"key": rng.choice(KEYPOOL + ["zz"]), "vals": vals, "exclude": rng.random() < 0.5}
+    elif which == "filter_keyvals_regex":
+        params = {"key": rng.choice(KEYPOOL + ["zz"]), "regex": rng.choice(RXPOOL)}
+        for row in rows:                      # mostly strings under the key, so that the call usually returns
+            if rng.random() < 0.7:
+                row[2][params["key"]] = rng.choice(RXSTRINGS)
     elif which == "merge_events_by_keys":
         params = {"keys": [rng.choice(KEYPOOL + ["zz"]) for _ in range(rng.choice([0, 1, 1, 2, 2, 2, 3]))]}
         if rows and rng.random() < 0.04:
@@ -774,6 +816,44 @@ def enc_filter(fn, r, lab):
     return [fn.callno, r.heap, r.arg_locs[0], lab.k(p["key"]), [lab.v(v) for v in p["vals"]], 1 if p["exclude"] else 0]
 
 
+def call_fregex(env, fn, b):
+    return _f(env, fn)(b.args[0], b.params["key"], b.params["regex"])
+
+
+def thaw(x):
+    """a representative of the value class freeze() names"""
+    if isinstance(x, tuple):
+        if len(x) == 2 and x[0] == "\0dict":
+            return {k: thaw(v) for k, v in x[1]}
+        return [thaw(y) for y in x]
+    return x
+
+
+def enc_fregex(fn, r, lab):
+    """the engine table from the real `re`: does the pattern compile; per value label of the case what
+    bool(r.findall(v)) gives (0/1) or which exception class it raises"""
+    p = r.case["params"]
+    try:
+        rx = re.compile(p["regex"])
+    except Exception:  # noqa: BLE001 -- re.error: the call raises before anything is read
+        rx = None
+    rows = []
+    for fz, q in sorted(lab.vals.items(), key=lambda kv: kv[1]):
+        if rx is None:
+            break
+        try:
+            rows.append([q, 0, 1 if rx.findall(thaw(fz)) else 0])
+        except Exception as ex:  # noqa: BLE001 -- the class is the table entry
+            rows.append([q, 1, ERRCODE.get(type(ex).__name__, 10)])
+    return [fn.callno, r.heap, r.arg_locs[0], lab.k(p["key"]), 0 if rx is None else 1, rows]
+
+
+def ex_fregex(r, env):
+    p = r.case["params"]
+    rx = re.compile(p["regex"])
+    return [e for e in r.built.args[0] if p["key"] in e.data and bool(rx.findall(e.data[p["key"]]))]
+
+
 def call_merge(env, fn, b):
     return _f(env, fn)(b.args[0], b.params["keys"])
 
@@ -987,6 +1067,8 @@ register_fn(Fn("filter_keyvals", 14, "C16", 1, _F, call_filter, enc_filter, ex_f
 register_fn(Fn("merge_events_by_keys", 15, "C16", 1, _M, call_merge, enc_merge, ex_merge, or_merge, gen_merge, "events, keys"))
 register_fn(Fn("chunk_events_by_key", 16, "C16", 1, _C, call_chunk, enc_chunk, ex_chunk, or_chunk, gen_chunk, "events, key, pulsetime"))
 register_fn(Fn("sum_durations", 17, "C16", 1, _S, call_1, enc_1, ex_none, or_sum, gen_simple, "events"))
+# group C12: the one transform-backed built-in of aw_query/functions.py that is in no other property's statement
+register_fn(Fn("filter_keyvals_regex", 18, "C12", 1, _F, call_fregex, enc_fregex, ex_fregex, or_elements, gen_fregex, "events, key, regex"))
 # ===========================================================================
 # group C19: categorize, tag, split_url_events, simplify_string (Model/ClassifyHeap.v, calls 20..23)
 #
@@ -1876,6 +1958,12 @@ ASSUME_C19 = [
     "the annotating functions may write the keys they own into the data dicts of the listed events and nothing else: "
     "decided on the implementation by the oracle (also when the call raised midway)",
 ]
+ASSUME_C12 = [
+    "filter_keyvals_regex (Model/FilterRegexHeap.v): the regex engine is a parameter of the model - whether "
+    "re.compile(regex) returned and, per value label, what bool(r.findall(v)) gives or raises - tabulated per case from "
+    "the real `re` on a representative of every value class of the case; a value class the table does not name (a dict "
+    "value) is not a str: TypeError",
+]
 ASSUME_BOTH = [
     "'the inputs are not modified' and 'what the result shares with them' are decided on the implementation by the "
     "oracle (content + member identities of every reachable input object before/after; the result's objects by identity)",
@@ -1957,6 +2045,7 @@ def heap_check(ck, group, have_driver=True, n_random=None):
                                     replay_obj(rr, {"difference": bad, "wire": rr.wire, "model": _model_view(mo, rr)}))
                 elif samples < 1 and feats and r.out and r.case["stream"] == "corpus" and len(r.case["lists"][0]) >= 3 and \
                         w in ("merge_events_by_keys", "chunk_events_by_key", "concat", "filter_keyvals", "sort_by_timestamp",
+                              "filter_keyvals_regex",
                               "categorize", "tag", "split_url_events", "simplify_string") and \
                         (w != "merge_events_by_keys" or any(isinstance(o, list) and o is not r.built.args[0] for o in r.leaves)):
                     samples += 1
@@ -1966,12 +2055,13 @@ def heap_check(ck, group, have_driver=True, n_random=None):
         if disagreed:
             ck.count(w + ":disagreements", disagreed)
     props = {FUNCS[w].prop for w in which}
-    for x in (ASSUME_C16 if "C16" in props else []) + (ASSUME_C19 if "C19" in props else []) + ASSUME_BOTH:
+    for x in ((ASSUME_C16 if props & {"C16", "C12"} else []) + (ASSUME_C12 if "C12" in props else []) +
+              (ASSUME_C19 if "C19" in props else []) + ASSUME_BOTH):
         if x not in ck.assumptions:
             ck.assumptions.append(x)
 
 
-PROPS = ["Props/C16own.v", "Props/C19own.v"]
+PROPS = ["Props/C16own.v", "Props/C19own.v", "Props/C12transforms.v"]
 
 
 def main(argv=None):
